@@ -1459,6 +1459,15 @@ class Real(base.SimpleAsn1Type):
         if self._value in self._inf:
             return self._value
         else:
+            if self._value[2] > 4096:
+                # Far beyond the range of a float whatever the mantissa:
+                # do not build the (possibly gigantic) power to find out
+                if not self._value[0]:
+                    return 0.0
+
+                raise OverflowError(
+                    'Real value %r is too large to convert to float' % (self._value,))
+
             return float(
                 self._value[0] * pow(self._value[1], self._value[2])
             )
